@@ -63,10 +63,11 @@ namespace c14
         // ops: 0 emplace_back(int) 1 push_back(const&) 2 push_back(std::move) 3 resize(a) 4 copy assignment from a elements
         //      5 copy construction from a elements 6 pointer-range construction from a elements
         //      7 input-iterator-range construction 8 initializer-list construction
+        //      9 move construction from a elements 10 move assignment from a elements (the element's move constructor throws)
         void run(int op, int s, int a, int k)
         {
             static const char *on[] = {"emplace_back", "push_back", "push_back_moved", "resize", "copy_assign", "copy_ctor", "ctor_range_pointer", "ctor_range_input_iterator",
-                                       "ctor_initlist"};
+                                       "ctor_initlist", "move_ctor", "move_assign"};
             string o = on[op];
             reg.prop = "C14";
             trk::Use u(reg);
@@ -86,7 +87,9 @@ namespace c14
                     my.push_back(10 + i);
                 }
             }
-            bool existing = op <= 4;
+            bool existing = op <= 4 || op == 10;
+            const bool moves = op == 9 || op == 10;
+            trk::throw_on_moves() = moves;
             if (existing)
             {
                 new (X.ptr()) Vec();
@@ -133,6 +136,14 @@ namespace c14
                     case 5:
                         trk::arm_throw(k);
                         new (X.ptr()) Vec(*Y);
+                        break;
+                    case 9:
+                        trk::arm_throw(k);
+                        new (X.ptr()) Vec(std::move(*Y));
+                        break;
+                    case 10:
+                        trk::arm_throw(k);
+                        *X = std::move(*Y);
                         break;
                     case 6:
                         if constexpr (Tr::has_range_ctor)
@@ -189,6 +200,7 @@ namespace c14
                     threw = true;
                 }
                 trk::disarm_throw();
+                trk::throw_on_moves() = false;
             }
             reg.begin_op(variant + ".throwing." + o + ".cleanup");
             if (!threw)
@@ -203,7 +215,7 @@ namespace c14
             mc::nontrivial();
             if (existing)
             {
-                if (!consistent(o, X, op == 4 ? nullptr : &mx))
+                if (!consistent(o, X, (op == 4 || op == 10) ? nullptr : &mx))
                     return;
                 X->~Vec();
             }
@@ -211,7 +223,9 @@ namespace c14
                 return (void)bad(o, existing ? "elements_left_alive" : "elements_left_alive_after_failed_construction",
                     mc::fmt("%ld element object(s) alive in the storage %s", reg.live_in((uintptr_t)X.mem, X.size()),
                             existing ? "after the destructor" : "of a container whose constructor threw (there is no destructor to run)"));
-            if (!consistent(o, Y, &my))
+            // the source of a copy is untouched; the source of a move may hold moved-from elements, but every one of
+            // the size() elements it reports must still be a constructed object
+            if (!consistent(o, Y, moves ? nullptr : &my))
                 return;
             Y->~Vec();
             if (reg.live_total())
@@ -226,10 +240,10 @@ namespace c14
         // (op 0..8, prefill s 0..N, argument a 0..2N(<=6), k 1..N+1)
         const int K = (int)N + 1, A = 2 * (int)N + 1, S = (int)N + 1;
         int k = 1 + c % K, a = c / K % A, s = c / K / A % S, op = c / K / A / S;
-        if (op >= 9)
+        if (op >= 11)
             throw mc::Skip();
         mc::describe("%s N=%zu: op %d on size %d with argument %d, the %d-th element construction throws", variant.c_str(), N, op, s, a, k);
-        bool uses_a = op >= 3, uses_s = op <= 4;
+        bool uses_a = op >= 3, uses_s = op <= 4 || op == 10;
         if ((!uses_a && a) || (!uses_s && s))
             throw mc::Skip();
         if ((op == 6 || op == 7) && !Tr::has_range_ctor)
@@ -245,8 +259,8 @@ namespace c14
         string n = Tr::name;
         mc::add_check(n + "_vector_throwing_elements", [n] {
             // the first choice combines N with everything else: wide enough to shard
-            int c = mc::choose(3 * 9 * 4 * 7 * 4);
-            int ni = c / (9 * 4 * 7 * 4), r = c % (9 * 4 * 7 * 4);
+            int c = mc::choose(3 * 11 * 4 * 7 * 4);
+            int ni = c / (11 * 4 * 7 * 4), r = c % (11 * 4 * 7 * 4);
             // decode r with the largest radices (N = 3); smaller N skip what does not exist for them
             int k = r % 4, a = r / 4 % 7, s = r / 28 % 4, op = r / 112;
             switch (ni)
